@@ -39,7 +39,8 @@ CHECKS = {
        "properly nested (harness-side stack), spans lie inside the content, the structural event list rebuilt from the stream "
        "(object/array begin-end, key spans, literal spans) equals the reference decoder's, and Len() is the end of the value.",
   note="Under the trailing-characters option a number cut inside its syntax (\"1e\", \"1.x\") is treated as unspecified (is it the "
-       "value 1 followed by text?). Decoded string VALUES are not compared here (spans are); that is C03's subject.",
+       "value 1 followed by text?). Decoded string VALUES are not compared here (spans are); that is C03's subject. Len() and Check() of a document are "
+       "also compared with a fresh object after 0/1/3/all NextLexeme calls and after Check().",
   ref="DESIGN.md §4 C12"),
  "C19": dict(
   text="Bounded symbolic model checking of the real generated containers RuleASTNodes, ASTNodes, Constraints and StringSet: ONE "
@@ -63,7 +64,10 @@ CHECKS = {
        "followed by K=1/2 arbitrary bytes; (3) projects of 2/3 mutually or self referencing user types over 10/7 body kinds "
        "(shortcut, choice, key shortcut, array, allOf, type, or, optional) with symbolic targets under 5 root shapes; (4) OpenAPI "
        "conversion at struct level: for every accepted text of an 11-schema corpus with one digit varied and K arbitrary trailing "
-       "bytes, building the Schema Object tree (jsoac.New, SetDescription) does not panic.",
+       "bytes, building the Schema Object tree (jsoac.New, SetDescription) does not panic; (5) NewNumber/GuessSchemaType on a symbolic "
+       "mantissa with 16 concrete exponents at and beyond every limit of the implementation (refusal threshold +-1, 17-20 digits of "
+       "both signs, 2^63, 2^64); (6) Example() of 41 concrete regex schemas, 14 of which compile but defeat the example generator "
+       "(a generator panic is turned into a panic of the code under test).",
   note="The reflective json.Marshal step of the OpenAPI conversion is outside the claim (encoding/json reflection is not executed); regex Example() (reggen) is host code and "
        "not explored symbolically; memory exhaustion is outside; inputs longer than the bounds that are not prefix-probe shaped are outside.",
   ref="DESIGN.md §4 C02"),
@@ -71,9 +75,11 @@ CHECKS = {
   text="Bounded symbolic model checking: (1) position arithmetic of kit.JSchemaError on ALL texts of up to T tokens (newline in each of "
        "the four conventions LF, CR, CRLF, LFCR, space, letter; T=4/6) and every byte index: Line, Column, SourceSubString equal a "
        "reference derived from the tokens, and String() renders without panic for every index including indexes at/after the end and "
-       "2^63, 2^64-1; (2) on every rejecting path of the C02 input families (jschema, enum, regex, JSON document) the returned error is a "
+       "2^63, 2^64-1; a text may end inside its last two-byte line break (truncation); lines of 190-210 and 450 bytes as first, "
+       "second or later line are quoted whole or as a prefix followed by '...'; (2) on every rejecting path of the C02 input families (jschema, enum, regex, JSON document) the returned error is a "
        "kit.JSchemaError or *errs.Err (never a runtime.Error or other raw Go error), its code is not the internal-failure code, its "
-       "message is not a recovered runtime-error text, a carried index lies inside the text, and rendering it succeeds.",
+       "message is not a recovered runtime-error text, a carried index lies inside the text, and rendering it succeeds; the same for "
+       "projects of mutually referencing types (the C02 project family).",
   note="Message wording is outside the claim (messages built from symbolic bytes are opaque to the engine); texts mixing newline "
        "conventions are outside (1).",
   ref="DESIGN.md §4 C16"),
@@ -106,7 +112,9 @@ CHECKS = {
        "texts from rule templates whose scalar holes are symbolic, verdict compared with an oracle over exact integers: min/max with "
        "absent/true/false exclusivity for all signed decimals V, B with <=2 integer and <=2/3 fraction digits (value == bound, last "
        "fraction digit, trailing zeros, negatives, -0); min+max pairs; precision (1-3 fraction digits x P); minLength/maxLength over "
-       "strings of 0-3/4 pieces (plain or escaped) x N; minItems/maxItems (1-3 items x N); `or` of two integer rule sets; a type "
+       "strings of 0-3/4 pieces (plain or escaped) x N; minItems/maxItems (1-3 items x N); min+max with both exclusivity rules in every "
+       "combination (integers); `or` of two rule sets whose first alternative is an integer rule set or a (nullable) string rule set "
+       "that can never accept the value; a type "
        "reference through `type` and through a shortcut with the rule on the type; inline enum with two entries. Accepted iff the "
        "oracle accepts; min/max rejections carry the constraint-violation code.",
   note="Outside the claim: regex rule on symbolic subjects, email/uri/date/datetime/uuid formats, const/nullable, exponents in rule "
@@ -115,15 +123,16 @@ CHECKS = {
  "C03": dict(
   text="Bounded symbolic model checking through Check(), Example() and GetAST(): 8 structural JSON skeletons (scalar, one/two-member "
        "objects, arrays, nesting, empty containers) whose keys and string values are made of 0-1/2 symbolic pieces (plain byte incl. "
-       "structural characters, simple escape, \\u00XX with symbolic hex, concrete 2/3/4-byte UTF-8, a surrogate pair), numbers with "
+       "structural characters and DEL, simple escape, \\u00XX with symbolic hex, concrete 2/3/4-byte UTF-8, a surrogate pair), numbers with "
        "sign/fraction, true/false/null, and symbolic whitespace gaps: the text is accepted, Example() decodes (reference decoder, itself "
        "validated natively against encoding/json on 637k short strings + 100k documents) to the same keys, order and literals, and the "
        "AST is the same tree with decoded keys and string values.",
   note="Duplicate keys and exponent numbers are excluded by the property; deeper/wider documents than the skeletons are outside.",
   ref="DESIGN.md §4 C03"),
  "C15": dict(
-  text="Bounded symbolic model checking of Len(): 12 complete jschema root templates (object, array, string, number, literal, inline and "
-       "multi-line annotated scalars incl. notes ending in '#', @ref, @a | @b, annotated members) with symbolic scalars: Len(S) <= "
+  text="Bounded symbolic model checking of Len(): 16 complete jschema root templates (object, array, string, number, literal, inline and "
+       "multi-line annotated scalars incl. notes ending in '#', \\u escapes in the value and inside an annotation string, rules "
+       "followed by a bare dash, @ref, @a | @b, annotated members) with symbolic scalars: Len(S) <= "
        "len(S), S[:Len(S)] has the same verdict/code and AST, Len is idempotent on the prefix; and Len(S + newline(LF/CR/CRLF) + "
        "optional indentation + c + rest) == Len(S) for every first byte c that is not a blank, '/' or '#' and every rest of up to 1/2 "
        "arbitrary bytes. The same boundary property for enum rules (5 templates) and JSON documents with the trailing-characters option.",
@@ -131,8 +140,9 @@ CHECKS = {
   ref="DESIGN.md §4 C15"),
 
  "C05": dict(
-  text="Bounded symbolic model checking through UsedUserTypes() and Check(): ten reference positions (value shortcut, @a | @b, key "
-       "shortcut, type, or item string, or rule-set type, allOf, additionalProperties, nested array/object, allOf list + own member) "
+  text="Bounded symbolic model checking through UsedUserTypes() and Check(): 16 reference positions (value shortcut, @a | @b, key "
+       "shortcut, type, or item string, or rule-set type alone and with further rules (unnamed types), allOf, additionalProperties, "
+       "nested array/object, allOf list + own member, nested allOf, quoted type-like key, repeated key shortcut) "
        "whose target names are symbolic letters over {@a,@b,@c} - the collector's de-duplication map and the type table are looked up "
        "with symbolic keys, so the solver decides which names coincide - under every subset of registered types (symbolic flags): "
        "UsedUserTypes() equals the distinct names in text order regardless of registration; Check() reports code 1302 naming a "
@@ -146,7 +156,9 @@ CHECKS = {
        "1 (quick) / 1-2 (thorough) members, every member an edge of kind required / optional / nullable / array / choice to "
        "arbitrary targets; the root is the type @a checked under its own name with every type registered: (1) code 104 is only "
        "reported when the root has no finite instance (least-fixpoint oracle); (2) a root that reaches itself through mandatory "
-       "plain links is reported; (3) when Check() passes, Example() terminates within the step budget and is RFC 8259 JSON.",
+       "plain links is reported; (3) when Check() passes, Example() terminates within the step budget and is RFC 8259 JSON. Two more "
+       "families in both tiers: two types of which one has TWO members of every kind and target (so an optional/nullable/array/choice "
+       "member stands before or after a mandatory link), and four-type choice shapes with dead-end alternatives.",
   note="After the forks on edge kinds and targets the runs are concrete: the solver's role here is exhaustive enumeration of the "
        "bounded graph space through the real pipeline. Known finding C06-long-mandatory-cycle (cycles through two or more other "
        "types pass Check) is reported as KNOWN-FINDING.",
@@ -157,8 +169,11 @@ CHECKS = {
        "by the solver) and symbolic optional flags; and child x parent additionalProperties over {absent, true, false, \"string\", "
        "\"integer\", \"@t\"}^2. Refused iff a duplicate key, non-object/missing/cyclic parent or differing additionalProperties; when "
        "merged, the compiled ObjectNode has own keys then inherited ones in order, each marked with the parent named in this "
-       "object's allOf and keeping its optional flag, and Example() shows exactly that key set in order.",
-  note="The OpenAPI property listing is outside the claim for now; deeper DAGs than the listed shapes are outside.",
+       "object's allOf and keeping its optional flag, a lookup by name finds that same property, the compiled node's own AST lists "
+       "them with their origin, Example() shows exactly that key set in order, and openapi.Dereference(root) is one object whose "
+       "PropertiesInfos() are exactly those keys with their optional status in order. Heirs: required keys, nested heirs in "
+       "referenced types, inherited objects.",
+  note="Deeper DAGs than the listed shapes are outside.",
   ref="DESIGN.md §4 C07"),
 
  "C04": dict(
@@ -179,9 +194,12 @@ CHECKS = {
        "minimum/maximum with OpenAPI 3.0 boolean exclusivity, minLength/maxLength; numeric comparisons with exact integers): when "
        "Check() accepts, Example() is a valid instance, and so is every other value of the same literal kind that the same rules "
        "accept. A second harness does the same for trees: objects (properties, required), arrays (items as anyOf, minItems/maxItems), "
-       "`or` alternatives, null/nullable and references resolved to the conversions of the registered types (6 shapes, symbolic scalars).",
+       "`or` alternatives, null/nullable (null as the one variation of a nullable root, also for `@a | @b` and `@a` shortcuts), quoted "
+       "type-like keys, additionalProperties (false / a registered type) seen from the SAME Schema Object only, allOf as 'instance of "
+       "every referenced conversion', and references resolved to the conversions of the registered types (11 shapes, symbolic scalars).",
   note="Outside the claim: the JSON TEXT of the conversion (encoding/json reflection is not executed: well-formedness, key escaping, "
-       "omitempty), allOf/additionalProperties keywords, pattern, format, multipleOf.",
+       "omitempty), typed additionalProperties other than a user type (treated as 'anything goes'), pattern, format. Known finding "
+       "C08-allof-additional-properties-false (heir and parent refuse each other's members) is reported as KNOWN-FINDING.",
   ref="DESIGN.md §4 C08"),
  "C09": dict(
   text="Bounded symbolic model checking of determinism: a project of three user types, each broken or not depending on a symbolic digit "
@@ -189,24 +207,31 @@ CHECKS = {
        "under 3/5 other modelled iteration orders, (b) under all six AddType permutations, (c) twice on fresh objects - every %p "
        "yields fresh symbolic address bytes, so any observable that mentions an address differs between the runs - and the "
        "observables (error code, message, index, offending type; or example, used types, Len) are asserted equal, i.e. the solver "
-       "decides the equality for all digit values; plus enum rules with two entries under two map orders. GuessSchemaType under "
+       "decides the equality for all digit values; plus enum rules with two entries under two map orders; nodes carrying several "
+       "offending rules (banned for a format type, or string rules on an integer), in the schema itself or inherited through allOf, "
+       "under 4 map orders; three repeated Example()/Check() calls on one object. GuessSchemaType under "
        "map orders is part of C20.",
   note="Map order and heap addresses are engine parameters / symbolic models, not Go's real randomisation; native confirmation of such "
        "a counterexample repeats the case up to 200 times. OpenAPI text is outside.",
   ref="DESIGN.md §4 C09"),
  "C10": dict(
   text="Bounded symbolic model checking of result stability and history independence, claimed in part: sequences of 2/3 operations "
-       "(Example, UsedUserTypes, Check, Len) over five schema texts with symbolic digits/letters - three valid, one failing in the "
-       "loader, one failing in the scanner - sharing objects across steps, under the LIFO model of sync.Pool (Get returns the most "
+       "(Example, UsedUserTypes, Check, Len) over eleven schema texts with symbolic digits/letters - valid ones (incl. a root array, "
+       "a long example, a comment-only text), texts failing in the scanner, in the loader, after the root exists, after the load "
+       "(checker, unknown type) and one whose Example() fails inside a nested member - sharing objects across steps, under the LIFO model of sync.Pool (Get returns the most "
        "recent Put): every returned byte slice / list still equals the snapshot taken when it was returned, and every result equals "
-       "the one obtained with the 'always New' pool model on fresh objects (what a fresh process computes).",
+       "the one obtained with the 'always New' pool model on fresh objects (what a fresh process computes), and every returned example "
+       "is RFC 8259 JSON. A refused AddType (taken or invalid name) leaves UserTypeCollection, Check() and Example() as they were; the "
+       "OpenAPI conversion (struct level) leaves the AST intact.",
   note="sync.Pool is modelled (LIFO / fresh), not executed; OpenAPI marshalers are outside (reflection).",
   ref="DESIGN.md §4 C10"),
  "C14": dict(
-  text="Bounded symbolic model checking of layout independence: four schema models (annotated number, string with an `or` rule, object "
-       "with annotated members and a reference, array with a note and a type choice; digits, letters and notes symbolic) are printed "
+  text="Bounded symbolic model checking of layout independence: eight schema models (annotated number, string with an `or` rule, object "
+       "with annotated members and a reference, array with a note and a type choice, members followed by user comments, a reference "
+       "to a named enum rule as last/only rule; digits, letters and notes symbolic; each model must be accepted on some path) are printed "
        "canonically and with ONE (quick) or TWO (thorough) layout dimensions changed - LF/CRLF/CR, indentation, blanks after colons, "
-       "blanks before annotations, // vs /* */, quoted vs bare rule names, # line comments and ### block comments, leading and "
+       "blanks before annotations, blanks between a rule name and its colon, blanks before the closing brace of a rule set, // vs "
+       "/* */, quoted vs bare rule names, # line comments and ### block comments, leading and "
        "trailing blank lines - with @u registered or not: same verdict and error code; when accepted the same AST, example and "
        "used-type list.",
   note="The repository's test corpus under layout transforms is not replayed; OpenAPI output is outside.",
